@@ -444,6 +444,16 @@ func (fc *fileCtx) goStmt(g *ast.GoStmt) error {
 		}
 	}
 	site := fc.site(g.Go)
+	if fl, ok := fun.(*ast.FuncLit); ok {
+		// every site inside this literal is only ever executed by the new goroutine
+		fc.goBodies = append(fc.goBodies, GoBody{
+			File: fc.pkg.PkgPath + "/" + fc.base,
+			From: fc.tf.PositionFor(fl.Body.Lbrace, false).Line,
+			To:   fc.tf.PositionFor(fl.Body.Rbrace, false).Line,
+		})
+	} else {
+		fc.notes = append(fc.notes, fmt.Sprintf("%s: go statement with a named function: the sites of its body are not known to be goroutine-only", fc.site(g.Go)))
+	}
 	if nbind == 0 && (static || lit) {
 		// Nothing is evaluated by the go statement itself: wrap the call in place.
 		fc.replace(g.Go, call.Pos(), hookName+".Go("+site+", func() { ")
